@@ -15,7 +15,7 @@
 struct nv_dims4c { int64_t _0, _1, _2, _3; };
 struct nv_clacc { struct nv_dims4c m_r1; };                 /* accumulator_t: the dims of m_r1 (bins x the three output dims) */
 int64_t nv_b, nv_b2, nv_L, nv_L2;
-int64_t nv_other_i; double nv_other_d;
+int64_t nv_other_i, nv_last_r, nv_last_c; double nv_other_d;
 struct nv_c2 { int64_t rows, cols; };                       /* cluster_x0 */
 struct nv_c5 { int64_t rows, cols; };                       /* cluster_r1 / r2 / rx: rows x cols rows of outputs */
 struct nv_cwv { int64_t dummy; };                           /* a row / cell view or an Eigen expression over one */
@@ -51,7 +51,9 @@ static int64_t* nv_cid_at(struct nv_cid* t, int64_t r, int64_t c)
   __CPROVER_assert(r == t->cur_row, "cluster_id is read and written in the row being built only (finished levels are final)");
   if (r == t->cur_row && c == nv_b) return &t->cur;
   if (r == t->cur_row && c == nv_b2) return &t->cur2;
-  nv_other_i = nv_nondet_int64_t(); return &nv_other_i;
+  /* any other cell: an arbitrary value, stable while the same cell is accessed again (`if (id(t, b) > c2) id(t, b) -= 1`) */
+  if (r != nv_last_r || c != nv_last_c) { nv_other_i = nv_nondet_int64_t(); nv_last_r = r; nv_last_c = c; }
+  return &nv_other_i;
 }
 static struct nv_idrow nv_cid_row(struct nv_cid* t, int64_t r)
 { __CPROVER_assert(0 <= r && r < t->rows, "cluster_id.array(r): first index in range"); struct nv_idrow v; v.t = t; v.row = r; return v; }
@@ -78,18 +80,18 @@ static struct nv_cret nv_cret_make(struct nv_cid id) { nv_cid_freeze(&id); struc
   && (((id).lv_set && (id).lvB_set && nv_b2 != nv_b && (id).lv == (id).lv2) ==> (id).lvB == (id).lv2B))
 #define NV_CONTRACT_acc_cluster \
 __CPROVER_requires(__CPROVER_is_fresh(self, sizeof(*self)) && 1 <= NV_BINS && NV_BINS <= NV_MAXN && NV_RANGE(nv_b, NV_BINS) && NV_RANGE(nv_b2, NV_BINS) && 0 <= nv_L && nv_L < nv_L2 && nv_L2 < NV_BINS) \
-__CPROVER_assigns(nv_other_i, nv_other_d) \
+__CPROVER_assigns(nv_other_i, nv_other_d, nv_last_r, nv_last_c) \
 /* .1 every level is built: both ghost levels were frozen, the last row is bins - 1 */ \
 __CPROVER_ensures(__CPROVER_return_value.id.lv_set && __CPROVER_return_value.id.lvB_set && __CPROVER_return_value.id.cur_row == NV_BINS - 1 && __CPROVER_return_value.id.rows == NV_BINS && __CPROVER_return_value.id.cols == NV_BINS) \
 /* .2 at level L every bin has a cluster index in [0, bins - L) (level 0: its own); bins together at level L stay together at level L2 > L */ \
 __CPROVER_ensures(NV_FROZEN(__CPROVER_return_value.id, NV_BINS))
 #define NV_LOOP_acc_cluster_1 \
-__CPROVER_assigns(bin, NV_ID.cur, NV_ID.cur2, nv_other_i) \
+__CPROVER_assigns(bin, NV_ID.cur, NV_ID.cur2, nv_other_i, nv_last_r, nv_last_c) \
 __CPROVER_loop_invariant(0 <= bin && bin <= bins && bins == NV_BINS && NV_ID.cur_row == 0 && NV_ID.rows == bins && NV_ID.cols == bins && !NV_ID.lv_set && !NV_ID.lvB_set) \
 __CPROVER_loop_invariant((bin > nv_b ==> NV_ID.cur == nv_b) && ((bin > nv_b2 && nv_b2 != nv_b) ==> NV_ID.cur2 == nv_b2)) \
 __CPROVER_decreases(bins - bin)
 #define NV_LOOP_acc_cluster_2 \
-__CPROVER_assigns(trial, n_clusters, NV_ID.cur_row, NV_ID.cur, NV_ID.cur2, NV_ID.lv_set, NV_ID.lvB_set, NV_ID.lv, NV_ID.lv2, NV_ID.lvB, NV_ID.lv2B, nv_other_i, nv_other_d) \
+__CPROVER_assigns(trial, n_clusters, NV_ID.cur_row, NV_ID.cur, NV_ID.cur2, NV_ID.lv_set, NV_ID.lvB_set, NV_ID.lv, NV_ID.lv2, NV_ID.lvB, NV_ID.lv2B, nv_other_i, nv_other_d, nv_last_r, nv_last_c) \
 __CPROVER_loop_invariant(1 <= trial && trial <= bins && bins == NV_BINS && n_clusters == bins - trial + 1 && NV_ID.cur_row == trial - 1 && NV_ID.rows == bins && NV_ID.cols == bins) \
 __CPROVER_loop_invariant(NV_RANGE(NV_ID.cur, n_clusters) && (nv_b2 != nv_b ==> NV_RANGE(NV_ID.cur2, n_clusters)) && (trial == 1 ==> (NV_ID.cur == nv_b && (nv_b2 != nv_b ==> NV_ID.cur2 == nv_b2)))) \
 __CPROVER_loop_invariant((NV_ID.lv_set != 0) == (nv_L + 1 < trial) && (NV_ID.lvB_set != 0) == (nv_L2 + 1 < trial) && NV_FROZEN(NV_ID, bins)) \
@@ -108,14 +110,16 @@ __CPROVER_loop_invariant(cluster2 <= cluster && cluster <= n_clusters - 1) __CPR
 #define NV_RELABEL1(k) (((k) == cluster2) ? cluster1 : (k))
 #define NV_RELABEL2(k) (((k) > cluster2) ? (k) - 1 : (k))
 #define NV_LOOP_acc_cluster_6 \
-__CPROVER_assigns(bin, NV_ID.cur, NV_ID.cur2, nv_other_i) \
+__CPROVER_assigns(bin, NV_ID.cur, NV_ID.cur2, nv_other_i, nv_last_r, nv_last_c) \
 __CPROVER_loop_invariant(0 <= bin && bin <= bins && NV_ID.cur_row == trial) \
 __CPROVER_loop_invariant(NV_ID.cur == ((bin > nv_b) ? NV_RELABEL1(__CPROVER_loop_entry(NV_ID.cur)) : __CPROVER_loop_entry(NV_ID.cur))) \
 __CPROVER_loop_invariant(nv_b2 != nv_b ==> NV_ID.cur2 == ((bin > nv_b2) ? NV_RELABEL1(__CPROVER_loop_entry(NV_ID.cur2)) : __CPROVER_loop_entry(NV_ID.cur2))) \
 __CPROVER_decreases(bins - bin)
 #define NV_LOOP_acc_cluster_7 \
-__CPROVER_assigns(bin, NV_ID.cur, NV_ID.cur2, nv_other_i) \
+__CPROVER_assigns(bin, NV_ID.cur, NV_ID.cur2, nv_other_i, nv_last_r, nv_last_c) \
 __CPROVER_loop_invariant(0 <= bin && bin <= bins && NV_ID.cur_row == trial) \
+/* (after the first relabelling no tracked bin is in cluster2 any more: `> cluster2` and `>= cluster2` renumber alike) */ \
+__CPROVER_loop_invariant(__CPROVER_loop_entry(NV_ID.cur) != cluster2 && (nv_b2 != nv_b ==> __CPROVER_loop_entry(NV_ID.cur2) != cluster2)) \
 __CPROVER_loop_invariant(NV_ID.cur == ((bin > nv_b) ? NV_RELABEL2(__CPROVER_loop_entry(NV_ID.cur)) : __CPROVER_loop_entry(NV_ID.cur))) \
 __CPROVER_loop_invariant(nv_b2 != nv_b ==> NV_ID.cur2 == ((bin > nv_b2) ? NV_RELABEL2(__CPROVER_loop_entry(NV_ID.cur2)) : __CPROVER_loop_entry(NV_ID.cur2))) \
 __CPROVER_decreases(bins - bin)
